@@ -3,7 +3,9 @@ package c16
 import (
 	"fmt"
 	"os"
+	"os/exec"
 	"path/filepath"
+	"strings"
 	"syscall"
 
 	// every standard module: the adapter's directive parsers and what caddy.Validate provisions
@@ -15,8 +17,8 @@ import (
 // XDG dirs / HOME, so that provisioning for the validity clause cannot touch anything
 // outside /verif/.run. Caddy captures both the working directory (caddy.FastAbs) and the
 // data directory (caddy.DefaultStorage) during package initialisation, so changing them
-// later is not enough: the harness re-executes itself once, from the private directory and
-// with the private environment, before anything else happens.
+// later is not enough: the harness runs itself as a child process, from the private directory
+// and with the private environment (see supervise).
 
 const childEnv = "C16_PRIVATE_ROOT"
 
@@ -78,10 +80,136 @@ func reexecInPrivateDir() {
 		// a variable the generator refers to through {$C16_ENV}; C16_UNSET stays unset
 		"C16_ENV=envval",
 	)
-	if err := os.Chdir(filepath.Join(d, "cwd")); err != nil {
+	if err := writeImportFixtures(d); err != nil {
 		fail(err)
 	}
-	fail(syscall.Exec(exe, args, env))
+	supervise(exe, args, env, d)
+}
+
+// writeImportFixtures: files for the import-expansion cases, NEXT TO the (empty) working
+// directory, reached as `import ../inc/<name>`: a self-import, a two-file cycle, a plain
+// file, a file that defines and uses a snippet.
+func writeImportFixtures(d string) error {
+	inc := filepath.Join(d, "inc")
+	if err := os.MkdirAll(inc, 0o755); err != nil {
+		return err
+	}
+	files := map[string]string{
+		"self":  "import self\n",
+		"a":     "import b\n",
+		"b":     "import a\n",
+		"ok":    "header X-Inc ok\n",
+		"snip":  "(incsnip) {\n\trespond /inc {args[0]}\n}\n",
+		"site":  "inc.test {\n\timport ok\n}\n",
+		"empty": "",
+	}
+	for n, c := range files {
+		if err := os.WriteFile(filepath.Join(inc, n), []byte(c), 0o644); err != nil {
+			return err
+		}
+	}
+	return nil
+}
+
+// supervise runs the real harness as a child process in the private directory. A fatal Go
+// error (stack overflow, out of memory, concurrent map write) cannot be recovered inside the
+// process; the child therefore notes the case it is about to run in <private>/current, and
+// when it dies the run is repeated with that case listed in C16_CRASHED: the child then
+// reports it as an `adapter-crash` failure instead of running it. Generation is a function of
+// the seed, so the repeated run sees the same cases.
+func supervise(exe string, args, env []string, d string) {
+	var crashed []string
+	for attempt := 0; ; attempt++ {
+		os.Remove(filepath.Join(d, "current"))
+		cmd := exec.Command(exe, args[1:]...)
+		cmd.Dir = filepath.Join(d, "cwd")
+		cmd.Env = append(append([]string{}, env...), "C16_CRASHED="+strings.Join(crashed, ","))
+		cmd.Stdin, cmd.Stdout, cmd.Stderr = os.Stdin, os.Stdout, os.Stderr
+		err := cmd.Run()
+		if err == nil {
+			os.RemoveAll(d)
+			os.Exit(0)
+		}
+		cur, rerr := os.ReadFile(filepath.Join(d, "current"))
+		code := 1
+		if ee, ok := err.(*exec.ExitError); ok && ee.ExitCode() >= 0 {
+			code = ee.ExitCode()
+		}
+		if rerr != nil || len(cur) == 0 || attempt >= 8 || code == 2 {
+			// not attributable to a case (usage error, I/O problem) or too many crashes
+			if tail, e := os.ReadFile(filepath.Join(d, "stderr.log")); e == nil {
+				if len(tail) > 4000 {
+					tail = tail[len(tail)-4000:]
+				}
+				os.Stderr.Write(tail)
+			}
+			fmt.Fprintln(os.Stderr, "c16: harness child failed:", err)
+			os.RemoveAll(d)
+			os.Exit(code)
+		}
+		crashed = append(crashed, string(cur))
+		// keep the head of the fatal error for the failure report
+		if log, e := os.ReadFile(filepath.Join(d, "stderr.log")); e == nil {
+			i := strings.LastIndex(string(log), "fatal error:")
+			if j := strings.LastIndex(string(log), "\npanic: "); j > i {
+				i = j + 1
+			}
+			if i < 0 {
+				i = 0
+				if len(log) > 1500 {
+					i = len(log) - 1500
+				}
+			}
+			log = log[i:]
+			if len(log) > 1500 {
+				log = log[:1500]
+			}
+			os.WriteFile(filepath.Join(d, "crash-"+string(cur)), log, 0o644)
+		}
+		cleanDir(filepath.Join(d, "cwd"))
+	}
+}
+
+func cleanDir(dir string) {
+	es, _ := os.ReadDir(dir)
+	for _, e := range es {
+		os.RemoveAll(filepath.Join(dir, e.Name()))
+	}
+}
+
+var (
+	crashedSet map[string]bool
+	lastCrash  string
+)
+
+// noteCase records the case about to run; it returns true if an earlier attempt died on it.
+func noteCase(line string) bool {
+	if privRoot == "" {
+		return false
+	}
+	h := fmt.Sprintf("%016x", hashStr(line)^uint64(len(line))<<48)
+	if crashedSet == nil {
+		crashedSet = map[string]bool{}
+		for _, c := range strings.Split(os.Getenv("C16_CRASHED"), ",") {
+			if c != "" {
+				crashedSet[c] = true
+			}
+		}
+	}
+	if crashedSet[h] {
+		if b, err := os.ReadFile(filepath.Join(privRoot, "crash-"+h)); err == nil {
+			lastCrash = string(b)
+		}
+		return true
+	}
+	os.WriteFile(filepath.Join(privRoot, "current"), []byte(h), 0o644)
+	return false
+}
+
+func caseDone() {
+	if privRoot != "" {
+		os.Remove(filepath.Join(privRoot, "current"))
+	}
 }
 
 var origErr = os.Stderr
@@ -121,9 +249,8 @@ func setupEnv() {}
 
 func cleanupEnv() {
 	if privRoot != "" {
+		caseDone()
 		syscall.Dup3(int(origErr.Fd()), 2, 0)
-		os.Chdir("/")
-		os.RemoveAll(privRoot)
 	}
 }
 
